@@ -494,7 +494,7 @@ pub fn build_raw(lang: &Lang, events: &[Ev], crlf: bool) -> Built {
                     // newline-terminated statements: never two statements on one line
                     let one_stmt_per_line = matches!(lang.id, "go" | "swift" | "kotlin");
                     let trail = place.trail && form == Form::Block && has_inline && !(lead && one_stmt_per_line);
-                    segs.push(Seg::Comment(CommentSeg { form, indent: (place.indent % 9) as usize, lead, trail, star: place.star && lang.star, doc: place.doc && lang.star, container: place.container % 5, parts: part_for(form) }));
+                    segs.push(Seg::Comment(CommentSeg { form, indent: (place.indent % 9) as usize, lead, trail, star: place.star && lang.star, doc: place.doc && (lang.star || lang.markdown), container: place.container % 5, parts: part_for(form) }));
                 }
                 prev_was_tag = true;
             }
@@ -586,9 +586,12 @@ pub fn build_raw(lang: &Lang, events: &[Ev], crlf: bool) -> Built {
                         let (o, cl) = lang.block.unwrap();
                         (if c.doc && o == "/*" { "/**".to_string() } else { o.to_string() }, cl.to_string())
                     }
-                    Form::MdRef(0) => ("[//]: # (".into(), ")".into()),
-                    Form::MdRef(1) => ("[//]: # \"".into(), "\"".into()),
-                    Form::MdRef(_) => ("[//]: # '".into(), "'".into()),
+                    // `doc` on a Markdown definition: the title sits on the line after the destination
+                    Form::MdRef(k) => {
+                        let (o, cl) = [("(", ")"), ("\"", "\""), ("'", "'")][k.min(2) as usize];
+                        let split_title = c.doc && (c.container == 0 || !one_line);
+                        (if split_title { format!("[//]: #{nl}{ind}  {o}") } else { format!("[//]: # {o}") }, cl.to_string())
+                    }
                     Form::MdHtml => ("<!--".into(), "-->".into()),
                 };
                 out.push_str(&open);
